@@ -91,7 +91,7 @@ def holdV (t : PThread) : List Nat := if pendPc t.q.pc then [t.q.v.2] else []
 def indProd (t : PThread) : Nat := if t.isProd then 1 else 0
 def indStart (t : PThread) : Nat := if t.isProd && pastStart t.q.pc then 1 else 0
 def indStop (t : PThread) : Nat := if t.isProd && pastStop t.q.pc then 1 else 0
-def retL (t : PThread) : List Nat := if t.isProd && pastStop t.q.pc then [retOf t] else []
+def retL (t : PThread) : List Nat := if t.isProd && pastStop t.q.pc then retsT t else []
 
 /-- the item a producer holds under the input lock, between `next` and `release` -/
 def handItems (t : PThread) : List Item :=
